@@ -253,6 +253,16 @@ func c01Exchanges(e *vh.Env, c c01Cfg) []c01Ex {
 		x.Script.Framing = ""
 		x.Script.Headers = append(x.Script.Headers, [2]string{"Content-Length", "12345"})
 	})
+	for _, st := range []int{500, 503, 404} {
+		st := st
+		add(fmt.Sprintf("HEAD answered %d with content-length", st), func(x *c01Ex) {
+			x.Req.Method = "HEAD"
+			x.Script.Status = st
+			x.Script.Steps = nil
+			x.Script.Framing = ""
+			x.Script.Headers = append(x.Script.Headers, [2]string{"Content-Length", "321"})
+		})
+	}
 	add("multi-write multi-flush", func(x *c01Ex) {
 		x.Script.Framing = "chunked"
 		x.Script.Steps = []vh.Step{{Op: "write", N: 10}, {Op: "flush"}, {Op: "write", N: 5000}, {Op: "flush"}, {Op: "write", N: 1}, {Op: "write", N: 40000}}
@@ -318,7 +328,7 @@ func c01Exchanges(e *vh.Env, c c01Cfg) []c01Ex {
 		if hs := rhSets[r.Intn(len(rhSets))]; r.Intn(3) == 0 && !y.Stream && disjoint(z.Script.Headers, hs) {
 			z.Script.Headers = append(append([][2]string{}, z.Script.Headers...), hs...)
 		}
-		if y.Label == "HEAD with content-length" {
+		if strings.HasPrefix(y.Label, "HEAD ") {
 			z.Req.Method, z.Req.BodyLen, z.Req.Chunked = "HEAD", 0, false
 		}
 		xs = append(xs, z)
